@@ -5,6 +5,17 @@ props = [json.loads(l) for l in open(os.path.join(VERIF, "properties.jsonl"))]
 ids = [p["id"] for p in props]
 
 CHECKS = {
+ "C12": dict(
+   text="Proof: props/C12.v. For every graph of structures (trees, cycles, multiply linked pairs, isolated structures) and every "
+        "declaration order, the model of split()'s incremental union returns pairwise disjoint sets that cover exactly the structures "
+        "(split_partition) and two structures share a set exactly when a chain of connections links them (split_connected; invariant of "
+        "the loop proved by induction over the declaration list). For every netlist, a part that no connection leaves, solved alone under "
+        "any schedule, has for the pins it owns the coefficients of the original solver (split_behaves). Closed under the global context. "
+        "The tie runs split() of /repo on random graphs incl. cycles, stars whose hub is declared last, multi-links and isolated "
+        "structures, compares the partition as a set of sets and each returned solver's matrix with the model's solve of that part.",
+   note="Trusted: Coq kernel + vm_compute; Bignums primitives for the executed instance; model Split.v tied by sampled correspondence; "
+        "harness. Follows the fixed code (F15). The 'defaults are handed over' half is checked in the C05/C06 parameter streams.",
+   technique="Coq proof (loop invariant, all graphs and orders) + vm_compute correspondence of partitions and part matrices", design="§5 C12"),
  "C19": dict(
    text="Proof: props/C19.v, for all hierarchies (induction over the nested tree): after prune no dead branch — empty model, or solver "
         "containing (recursively) nothing else — is left at any level (prune_no_dead); a hierarchy without dead branches is returned "
